@@ -47,7 +47,7 @@ type rmsg struct {
 	copy int
 }
 
-var rabinMenu = []string{"deal-share-off-poly", "deal-undecryptable", "deal-misdirected", "deal-silent-to-one", "deal-none",
+var rabinMenu = []string{"commits-fit-all-but-one", "deal-share-off-poly", "deal-undecryptable", "deal-misdirected", "deal-silent-to-one", "deal-none",
 	"just-missing", "just-wrong-share", "resp-false-complaint", "commits-inconsistent", "commits-missing", "complaint-commits-forged", "reconstruct-missing"}
 
 func rviol(oracle, class, format string, a ...any) *core.Violation {
@@ -438,6 +438,45 @@ func runRabin(t *core.Tape, tier string, info *core.RunInfo) *core.Violation {
 						info.ByzFired("commits-missing")
 						continue
 					}
+					if p.beh["commits-fit-all-but-one"] && n-2 <= th-1 && n >= 3 {
+						// F' = F + c*prod_{j != victim, j != me}(x - x_j): same degree, fits every other
+						// participant's share, misses exactly one honest participant's share
+						victim := -1
+						for _, q := range ps {
+							if q.honest() && q.id != p.id && !q.dead(4) {
+								victim = q.id
+								break
+							}
+						}
+						if victim >= 0 {
+							poly := []*big.Int{big.NewInt(1)}
+							for _, q := range ps {
+								if q.id == p.id || q.id == victim {
+									continue
+								}
+								xj := big.NewInt(int64(q.id) + 1)
+								nx := make([]*big.Int, len(poly)+1)
+								for k := range nx {
+									nx[k] = new(big.Int)
+								}
+								for k, c := range poly { // multiply by (x - xj)
+									nx[k+1].Add(nx[k+1], c)
+									nx[k].Sub(nx[k], new(big.Int).Mul(c, xj))
+								}
+								poly = nx
+							}
+							if len(poly) <= len(sc.Commitments) {
+								sc = copyRabinMsg(sc).(*rdkg.SecretCommits)
+								cst := kit.ScalarFromTape(g, t, "byz.val")
+								for k, c := range poly {
+									term := g.Point().Mul(g.Scalar().Mul(cst, kit.BigScalar(g, c)), nil)
+									sc.Commitments[k] = g.Point().Add(sc.Commitments[k], term)
+								}
+								sc.Signature, _ = schnorr.Sign(g, p.priv, sc.Hash(g))
+								info.ByzFired("commits-fit-all-but-one")
+							}
+						}
+					}
 					if p.beh["commits-inconsistent"] {
 						sc = copyRabinMsg(sc).(*rdkg.SecretCommits)
 						k := t.Intn("byz.pick", len(sc.Commitments))
@@ -603,7 +642,7 @@ func runRabin(t *core.Tape, tier string, info *core.RunInfo) *core.Violation {
 	okc := true
 	for _, q := range rq {
 		c, ok := sentCommits[int(q)]
-		if !ok || (ps[q].faulty == "byz" && ps[q].beh["commits-inconsistent"]) {
+		if !ok || (ps[q].faulty == "byz" && (ps[q].beh["commits-inconsistent"] || ps[q].beh["commits-fit-all-but-one"])) {
 			okc = false
 			break
 		}
